@@ -811,7 +811,8 @@ class C18(check.Check):
                    "the arena cache size is asserted only when the command line or the selected memory mode specifies it"]
     rule = ("generated .ini files (1..2 files, 1..3 system configs, 1..4 memory modes, inheritance chains, option subsets, port mappings, "
             "out-of-range / self-inheriting / missing sections) or the bundled Arm/vela.ini given as Dir/file.ini, x selection options x "
-            "--arena-cache-size x working directory (private dir, dir with a decoy Arm/vela.ini, bundled config dir, /); distinct = "
+            "--arena-cache-size x working directory (private dir, dir with a decoy Arm/vela.ini, bundled config dir, /) x an optional earlier "
+            "resolution of a different configuration in the same process; distinct = "
             "digest(case); non-trivial = a configuration file was selected")
 
     def boot(self):
@@ -845,6 +846,11 @@ class C18(check.Check):
             d["mem"] = r.choice(nm + (["Nope"] if r.random() < 0.08 else []))
         if r.random() < 0.5:
             d["cli_cache"] = r.choice([0, 1, 16384, 100000, 393216, 1 << 24, (1 << 32), (1 << 32) + 1, 1 << 40, (1 << 40) + 1, -5])
+        if r.random() < 0.4:
+            # history: another configuration is resolved (and a network compiled with it) earlier in the same process; what this one
+            # resolves to must not depend on it
+            ps, pns, pnm = gen_sections(r, "p")
+            d["prior"] = dict(sections=ps, sys=r.choice(pns), mem=r.choice(pnm), acc=r.choice(netgen.ACCELS))
         return d
 
     def case_layers(self, desc):
@@ -894,6 +900,14 @@ class C18(check.Check):
             except RefError as e:
                 exp, exp_err = None, str(e)
             old = os.getcwd()
+            if desc.get("prior"):
+                pr = desc["prior"]
+                pp = os.path.join(userdir, "prior.ini")
+                with open(pp, "w") as fh:
+                    fh.write(ini_text(pr["sections"]))
+                netsim.C.vela_main([src, "--output-dir", os.path.join(root, "out_prior"), "--accelerator-config", pr["acc"], "--config", pp,
+                                    "--system-config", pr["sys"], "--memory-mode", pr["mem"]])
+                out["counters"]["prior_resolution_in_same_process"] = 1
             os.chdir(cwd)
             try:
                 cr = netsim.C.vela_main(argv)
